@@ -1132,14 +1132,8 @@ func (p *Parser) parseWith(stmt *SelectStatement) error {
 				if strings.HasPrefix(next.Value, "'") && strings.HasSuffix(next.Value, "'") {
 					next.Value = strings.Trim(next.Value, "'")
 				}
-				// Check if Window is initialized; if not, create new WindowDefinition
-				if stmt.Window.Type == "" {
-					stmt.Window = WindowDefinition{
-						TsProp: next.Value,
-					}
-				} else {
-					stmt.Window.TsProp = next.Value
-				}
+				// Set only this option: earlier WITH options (and a window written before) stay.
+				stmt.Window.TsProp = next.Value
 			}
 		}
 		if valTok.Type == TokenTimeUnit {
@@ -1166,14 +1160,8 @@ func (p *Parser) parseWith(stmt *SelectStatement) error {
 				default:
 					// If unknown unit, keep default (milliseconds)
 				}
-				// Check if Window is initialized; if not, create new WindowDefinition
-				if stmt.Window.Type == "" {
-					stmt.Window = WindowDefinition{
-						TimeUnit: timeUnit,
-					}
-				} else {
-					stmt.Window.TimeUnit = timeUnit
-				}
+				// Set only this option: earlier WITH options (and a window written before) stay.
+				stmt.Window.TimeUnit = timeUnit
 			}
 		}
 		if valTok.Type == TokenMaxOutOfOrderness {
@@ -1186,14 +1174,8 @@ func (p *Parser) parseWith(stmt *SelectStatement) error {
 				}
 				// Parse duration string like '5s', '2m', '1h', etc.
 				if duration, err := cast.ToDurationE(durationStr); err == nil {
-					// Check if Window is initialized; if not, create new WindowDefinition
-					if stmt.Window.Type == "" {
-						stmt.Window = WindowDefinition{
-							MaxOutOfOrderness: duration,
-						}
-					} else {
-						stmt.Window.MaxOutOfOrderness = duration
-					}
+					// Set only this option: earlier WITH options (and a window written before) stay.
+					stmt.Window.MaxOutOfOrderness = duration
 				}
 				// If parsing fails, silently ignore (keep default 0)
 			}
@@ -1208,14 +1190,8 @@ func (p *Parser) parseWith(stmt *SelectStatement) error {
 				}
 				// Parse duration string like '5s', '2m', '1h', etc.
 				if duration, err := cast.ToDurationE(durationStr); err == nil {
-					// Check if Window is initialized; if not, create new WindowDefinition
-					if stmt.Window.Type == "" {
-						stmt.Window = WindowDefinition{
-							AllowedLateness: duration,
-						}
-					} else {
-						stmt.Window.AllowedLateness = duration
-					}
+					// Set only this option: earlier WITH options (and a window written before) stay.
+					stmt.Window.AllowedLateness = duration
 				}
 				// If parsing fails, silently ignore (keep default 0)
 			}
@@ -1230,14 +1206,8 @@ func (p *Parser) parseWith(stmt *SelectStatement) error {
 				}
 				// Parse duration string like '5s', '2m', '1h', etc.
 				if duration, err := cast.ToDurationE(durationStr); err == nil {
-					// Check if Window is initialized; if not, create new WindowDefinition
-					if stmt.Window.Type == "" {
-						stmt.Window = WindowDefinition{
-							IdleTimeout: duration,
-						}
-					} else {
-						stmt.Window.IdleTimeout = duration
-					}
+					// Set only this option: earlier WITH options (and a window written before) stay.
+					stmt.Window.IdleTimeout = duration
 				}
 				// If parsing fails, silently ignore (keep default 0)
 			}
@@ -1251,13 +1221,8 @@ func (p *Parser) parseWith(stmt *SelectStatement) error {
 					durationStr = strings.Trim(durationStr, "'")
 				}
 				if duration, err := cast.ToDurationE(durationStr); err == nil {
-					if stmt.Window.Type == "" {
-						stmt.Window = WindowDefinition{
-							CountStateTTL: duration,
-						}
-					} else {
-						stmt.Window.CountStateTTL = duration
-					}
+					// Set only this option: earlier WITH options (and a window written before) stay.
+					stmt.Window.CountStateTTL = duration
 				}
 			}
 		}
